@@ -3,7 +3,7 @@
    crypto/cosi.go (discrete-log representation of the group, arbitrary order l,
    abstract point encoding enc and hash-to-scalar H).  The correspondence
    harness (harness/cmd/c13) runs the model against the real code. *)
-From Coq Require Import List ZArith NArith Bool Znumtheory.
+From Coq Require Import List ZArith NArith Bool Znumtheory Permutation.
 Require Import Mixin.Base.Res Mixin.Gen.Consts Mixin.Model.Group Mixin.Model.Aggregate Mixin.Model.Cosi.
 Require Import Mixin.Proofs.Group Mixin.Proofs.Aggregate Mixin.Proofs.Cosi.
 Import ListNotations.
@@ -86,6 +86,65 @@ Theorem C13_threshold : forall l enc H keys t m c,
 Proof. exact threshold_rejects. Qed.
 Print Assumptions C13_threshold.
 
+
+(* The mask is the index set of the commitments map: for a Go map (association
+   list with distinct keys) accepted by CosiAggregateCommitment, bit n of the
+   mask is set iff n is a key of the map, Keys() lists exactly those indexes,
+   popcount = number of commitments, and every iteration order of the map
+   yields the same mask (and the same aggregated commitment). *)
+Theorem C13_mask_is_index_set : forall l rs c,
+  aggregate_commitment l rs = Ok c -> NoDup (map fst rs) ->
+  (forall n, N.testbit (c_mask c) n = has_index n (map fst rs)) /\
+  (forall i, In i (mask_keys (c_mask c)) <-> In i (map fst rs)) /\
+  length (mask_keys (c_mask c)) = length rs /\
+  (forall rs', Permutation rs rs' ->
+     exists c', aggregate_commitment l rs' = Ok c' /\ c_mask c' = c_mask c /\ cg l (c_r c') (c_r c)).
+Proof.
+  intros l rs c Hc Hnd. destruct (commitment_mask l rs c Hc Hnd) as (H1 & H2 & H3).
+  repeat split; try assumption; try apply H2.
+  intros rs' HP. exact (commitment_perm l rs rs' c Hc Hnd HP).
+Qed.
+Print Assumptions C13_mask_is_index_set.
+
+(* End to end: commitments aggregated by CosiAggregateCommitment, valid shares
+   from exactly those signers: aggregation and FullVerify succeed.  The
+   hypotheses of C13_complete on the mask and on R are discharged. *)
+Theorem C13_complete_from_commitments : forall l enc H keys cm rs m strict t c A, 0 < l ->
+  aggregate_commitment l cm = Ok c -> NoDup (map fst cm) ->
+  cosi_public_key l keys c = Ok A ->
+  NoDup (map fst rs) -> (forall i, In i (map fst cm) <-> In i (map fst rs)) ->
+  (forall i so, In (i, so) rs ->
+     exists s, so = Some s /\ share_valid l keys c (H (challenge_input enc (c_r c) A m)) i s) ->
+  point_ok l A = true -> point_ok l (c_r c) = true -> 0 < t <= Z.of_nat (length cm) ->
+  exists c', aggregate_response l enc H keys rs m strict c = Ok c' /\
+             full_verify l enc H keys t m c' = Ok tt.
+Proof.
+  intros l enc H keys cm rs m strict t c A Hl Hc Hnd HA Hnd' Hset Hv HpA HpR Ht.
+  destruct (commitment_mask l cm c Hc Hnd) as (_ & Hmk & Hlen).
+  apply (complete l enc H keys rs m strict t c A Hl HA Hnd'); try assumption.
+  - intros i. rewrite Hmk. apply Hset.
+  - exact (commitment_wf l cm c Hc Hnd).
+  - rewrite Hlen. exact Ht.
+Qed.
+Print Assumptions C13_complete_from_commitments.
+
+(* The two side conditions of completeness, explained: the aggregated key
+   (commitment) is the identity exactly when the discrete logs of the masked
+   keys (commitments) sum to 0 mod l ... *)
+Theorem C13_identity_iff : forall l xs, 0 < l ->
+  (point_ok l (fsum l xs) = false <-> cg l (zsum xs) 0).
+Proof. exact sum_identity_iff. Qed.
+Print Assumptions C13_identity_iff.
+
+(* ... and then FullVerify refuses the signature for every threshold, valid
+   shares or not (decodePoint refuses the identity as a key and as R). *)
+Theorem C13_identity_rejected : forall l enc H keys t m c A,
+  cosi_public_key l keys c = Ok A ->
+  point_ok l A = false \/ point_ok l (c_r c) = false ->
+  full_verify l enc H keys t m c = Err.
+Proof. exact identity_rejected. Qed.
+Print Assumptions C13_identity_rejected.
+
 (* Non-vacuity over l = 13 with a toy encoding and hash: three keys, signers 0 and 2. *)
 Definition ex_enc (p : Z) : N := Z.to_N (p + 100).
 Definition ex_H (b : list N) : Z := Z.of_N (fold_left (fun acc x => (acc * 7 + x + 3) mod 13)%N b 5%N).
@@ -113,3 +172,23 @@ Example C13_ex_flow :
   | _ => False
   end.
 Proof. vm_compute. split; reflexivity. Qed.
+
+(* keys 3 and 10 = -3 mod 13: the aggregated key is the identity, every share is
+   valid, strict aggregation succeeds, FullVerify refuses; mask bits = map keys
+   in either iteration order *)
+Example C13_ex_identity_key :
+  let keys := [3; 10] in
+  match aggregate_commitment 13 [(1, 4); (0, 7)], aggregate_commitment 13 [(0, 7); (1, 4)] with
+  | Ok c, Ok c2 =>
+      match response 13 ex_enc ex_H 3 7 keys 9%N c, response 13 ex_enc ex_H 10 4 keys 9%N c with
+      | Ok s0, Ok s1 =>
+          match aggregate_response 13 ex_enc ex_H keys [(0, Some s0); (1, Some s1)] 9%N true c with
+          | Ok c' => full_verify 13 ex_enc ex_H keys 1 9%N c' = Err /\ cosi_public_key 13 keys c = Ok 0
+                     /\ c_mask c = 3%N /\ c_mask c2 = 3%N /\ c_r c = c_r c2
+          | _ => False
+          end
+      | _, _ => False
+      end
+  | _, _ => False
+  end.
+Proof. vm_compute. repeat split; reflexivity. Qed.
